@@ -29,6 +29,7 @@ pub fn requirements(tier: Tier) -> Vec<(&'static str, u64)> {
         ("inverse-checked", 20_000),
         ("inverse-skipped-by-side-condition", 100),
         ("inverse:with-namespace", 10_000),
+        ("exhaustive:scalar-in-name-x-type", 1_112_064 * 21),
     ]
 }
 
@@ -86,6 +87,18 @@ pub fn judge_inverse(p: &Purl) -> Result<bool, Fail> {
     let b = Purl::builder_with_combined_name(t, c.as_str());
     match obs::build(b) {
         Out::Ok(q) => {
+            // "the same namespace and name": as the accessors report them, and as stored
+            let stored = |x: &Purl| {
+                let parts = x.clone().into_builder().parts;
+                (parts.namespace.to_string(), parts.name.to_string())
+            };
+            if stored(&q) != stored(p) {
+                return Err(Fail::tagged(
+                    "inverse-differs-in-stored-parts",
+                    ty,
+                    format!("{ty} PURL with stored namespace / name {:?}: combined_name() = {c:?}, which splits back into {:?}", stored(p), stored(&q)),
+                ));
+            }
             if q.namespace() != p.namespace() || q.name() != p.name() {
                 return Err(Fail::tagged(
                     "inverse-differs",
@@ -207,6 +220,35 @@ pub fn run(ctx: &mut Ctx) {
     }
     if ctx.worker == 0 {
         ctx.st.exhaustive.push(json!({"name": "every string of length 7..=10 over {a, :, ;, 9} (maven) and over {a, /, ., 0} (golang, npm)", "size": idx2, "completed": true}));
+    }
+    // complete: every Unicode scalar c in "a{c}b", "{c}b" and "a{c}" x 7 types (a separator
+    // that is not the documented one - a sentinel, a look-alike, a truncated code point)
+    let mut n = 0u64;
+    for cp in 0..=0x10FFFFu32 {
+        if !ctx.mine(cp as u64) {
+            continue;
+        }
+        let Some(c) = char::from_u32(cp) else { continue };
+        for form in [format!("a{c}b"), format!("{c}b"), format!("a{c}")] {
+            for ty in &types {
+                n += 1;
+                if let Some(f) = judge_split(ty, &form) {
+                    ctx.st.violation("C18.combined", format!("C18.combined:{}:{}", f.kind, f.tag), f.detail, json!({"kind": "split", "type": ty, "input": form}));
+                }
+                if let Some(t) = mk_typed(ty) {
+                    if let Out::Ok(p) = obs::build(Purl::builder_with_combined_name(t, form.as_str())) {
+                        if let Err(f) = judge_inverse(&p) {
+                            ctx.st.violation("C18.combined", format!("C18.combined:{}:{}", f.kind, f.tag), f.detail, json!({"kind": "inverse-of-combined", "type": ty, "input": form}));
+                        }
+                    }
+                }
+            }
+        }
+    }
+    ctx.st.evaluations += n;
+    ctx.st.add("exhaustive:scalar-in-name-x-type", n);
+    if ctx.worker == 0 {
+        ctx.st.exhaustive.push(json!({"name": "every Unicode scalar c in the combined names a{c}b, {c}b, a{c} x 7 types (split and inverse)", "size": 1_112_064u64 * 21, "completed": true}));
     }
     // random hostile strings with separators at random and extreme positions
     let mut r = ctx.rng("c18.split");
